@@ -2549,6 +2549,9 @@ class x86_mn(x86_mn_base):
                         modr[x86_afs.size] = self.admode
                         mafs[x86_afs.size] = self.opmode
                     if m.modifs[sg]:
+                        if re >= 6:
+                            log.info("No such segment register")
+                            return None
                         mafs[x86_afs.size] = x86_afs.size_seg
                     if modr[x86_afs.ad]:
                         # For ModRM, the size of memory may not be the same
